@@ -67,6 +67,10 @@ class Contract:
     def canaries(self, I: Interp, pre: Pre, result):
         return []
 
+    def must_return(self, shape) -> bool:
+        """True for input shapes for which the function is known to return normally on some path (reachability cover)"""
+        return False
+
     # ---- caller's view
     def usable_at_call(self, I: Interp, q) -> bool:
         return hasattr(self, "model")
@@ -138,10 +142,15 @@ def verify_function(front: Front, reg, contracts: ContractSet, c: Contract, shap
     except Exception as e:  # engine defect
         status["status"] = "crash"
         status["reason"] = f"{type(e).__name__}: {e}\n{traceback.format_exc()[-1500:]}"
+    obls = [o.as_dict() for o in ex.obligations]
+    if status.get("status") == "ok" and c.must_return(shape):
+        # reachability cover: with no normally returning path every postcondition would hold vacuously (e.g. a loop that can no longer be left)
+        obls.append({"name": f"{c.qual}:cover:a normal return is reachable for this input shape (postconditions are not vacuous)", "kind": "cover", "backend": "z3",
+                     "verdict": "proved" if ex.returned > 0 else "failed", "ms": 0.0, "model": None, "function": label})
     status.update({
         "paths": ex.n_paths, "returned_paths": ex.returned, "raised_paths": ex.raised, "queries": ex.queries,
         "solver_s": round(ex.solver_s, 3), "wall_s": round(time.time() - t0, 3),
-        "obligations": [o.as_dict() for o in ex.obligations],
+        "obligations": obls,
         "unknown_smt2": [o.smt2 for o in ex.obligations if o.verdict == "unknown" and o.smt2][:5],
         "assumed": sorted(ex.assumed), "inlined": sorted(ex.inlined), "contracts_used": sorted(ex.contracts_used),
         "covers": sorted(set(ex.covers)), "canaries": ex.canaries,
